@@ -1673,6 +1673,15 @@ class Walker:
         inplace = how >= 3
         if how in (0, 4):
             cc = True  # the operators always check collisions
+        if not cc:
+            # check_collisions=False is the caller's promise that no inner label of one network occurs in the other (two
+            # networks of one history can share bond names, e.g. after copies): keep the promise, else ask for the check
+            la = {ix for t in A.members for ix in t.inds}
+            lb = {ix for t in B.members for ix in t.inds}
+            ia = {ix for ix in la if sum(ix in t.inds for t in A.members) > 1}
+            ib = {ix for ix in lb if sum(ix in t.inds for t in B.members) > 1}
+            if (ia & lb) or (ib & la):
+                cc = True
         if (virtual or inplace) and any(a is b for a in A.members for b in B.members):
             return None  # one tensor object twice in one network: outside the domain
         if not inplace and len(self.nets) >= self.MAX_NETS:
